@@ -565,6 +565,14 @@ class Engine:
             return ("sym", "zst:" + v["zst"])
         if "bits" in v:
             return vint(int(v["bits"]))
+        if "tyconst" in v:
+            t = v["tyconst"]
+            if len(t) >= 2 and t[0] == '"' and t[-1] == '"':
+                try:
+                    import json as _json
+                    return ("str", _json.loads(t))
+                except ValueError:
+                    return ("str", t[1:-1])
         return ("sym", "const:" + repr(v))
 
     def operand(self, st, frame, o):
